@@ -5,6 +5,26 @@
   plus the GNU / WebAssembly rows, the assembler `encodeOps`, the prescribed observation `annotate`).
   Model side: PyElf/Model/DwarfExpr.lean (`parse_expr`, the dispatch closures, `read_blob`).
   Tie: PyElf/Props/TieC12.lean (the regenerated dispatch and name tables are the standard's).
+
+  Proved (no hypothesis besides the stated well-formedness):
+    * `expr_roundtrip`, `expr_roundtrip_spec`, `reencode_roundtrip`, `expr_concat`, `parse_fuel_sufficient`,
+      `every_cfg_has_table`, `names_bijective`, `marker_keys`, `sig_domain`;
+    * seventh wave, EXPRESSIONS WHERE THEY OCCUR (C12 × C04): `debug_info_exprs_exact`, `debug_types_exprs_exact` — from
+      the bytes of .debug_info / .debug_types / .debug_abbrev of any well-formed forest, every selected attribute
+      (DW_FORM_exprloc; block forms before DWARF 4 on exprloc-class names: `Spec.C12.isExprAttr`, or any other
+      selection) parses to exactly its operations with the configuration of ITS unit; `parser_cache_independent`,
+      `dispatch_key_exact` (the per-structs parser cache: key = (byte order, format, address size, version), no leak
+      between units), `block_value_bytes`;
+    * operand decoding at the extremes, each inside `expr_roundtrip`'s domain: `unit_dependent_widths`,
+      `addr_roundtrip`, `call_ref_roundtrip`, `implicit_pointer_roundtrip`, `implicit_value_roundtrip`,
+      `const_type_roundtrip`, `entry_value_roundtrip`, `leb_operand_roundtrip`;
+    * truncated expressions: `truncated_expr`, `truncation_exhaustive`, `truncated_expr_every_byte`.
+  Correspondence-only (model ↔ code on every run, no theorem): arbitrary / corrupted bytes (unknown opcodes → KeyError,
+  DW_OP_WASM_location kinds > 3 → DWARFError, byte flips; stream `raw`); the client-side walk on forests that are NOT
+  well formed; CPython's recursion limit on nests deeper than ~300 (the model has no limit).
+  DEFECT found in this wave and fixed (fixes/C12-ref-operand-dwarf2.patch): the reference operand of DW_OP_call_ref /
+  DW_OP_implicit_pointer / DW_OP_GNU_implicit_pointer was read format-sized in every version; in a DWARF 2 unit it is
+  ADDRESS-sized (`Spec.refSize`), as `gcc -O2 -gdwarf-2` emits it on 64-bit targets and binutils / LLVM read it.
 -/
 import PyElf.Spec.DwarfExpr
 import PyElf.Model.DwarfExpr
@@ -12,6 +32,11 @@ import PyElf.Gen.Extra_C12
 import PyElf.Proofs.DwarfExpr
 import PyElf.Proofs.DwarfExprFuel
 import PyElf.Props.TieC12
+import PyElf.Spec.DwarfExprInfo
+import PyElf.Model.DwarfExprInfo
+import PyElf.Proofs.DwarfExprInfo
+import PyElf.Proofs.DwarfExprTrunc
+import PyElf.Props.C04
 namespace PyElf.Props.C12
 open PyElf PyElf.Spec PyElf.Model PyElf.Proofs
 
@@ -142,5 +167,462 @@ example (D : List (Nat × List ArgKind)) (hD : ((⟨false, 64, 8, 5⟩ : DwarfCf
   expr_roundtrip _ D hD sample (by decide +kernel)
 /-- and that configuration does have a table -/
 example : (⟨false, 64, 8, 5⟩ : DwarfCfg) ∈ Gen.opDispatch.map (·.1) := by rw [every_cfg_has_table]; simp [allDwarfCfgs]
+
+/-! ### expressions where they occur: C12 × C04 (seventh wave) -/
+
+section Info
+open PyElf.Spec.C04 PyElf.Spec.C12 PyElf.Model.C12 PyElf.Proofs.C12
+
+/-- `_init_dispatch_table(DWARFStructs(c))`, as regenerated, looked up by the cache key: the standard's table -/
+theorem gen_table_get (c : DwarfCfg) (hc : c ∈ Spec.allDwarfCfgs) : tableGet Gen.opDispatch c = some (opTable c) := by
+  rw [TieC12.sig_table_eq_spec]
+  exact tableGet_map opTable _ c hc
+
+theorem gen_table_mem (c : DwarfCfg) (hc : c ∈ Spec.allDwarfCfgs) : (c, opTable c) ∈ Gen.opDispatch := by
+  rw [TieC12.sig_table_eq_spec]
+  exact List.mem_map.2 ⟨c, hc, rfl⟩
+
+/-- `unitRho` (Props/C04) is the resolved-value function `Spec.C12.unitEntries` uses -/
+theorem unitEntries_eq (F : Forest) (p : Nat × UnitDesc) (dieOff : Nat) :
+    flattenUnit C04.genNames (p.2.cfg F.le) (C04.unitRho F p.2) (C04.unitRho F p.2) dieOff p.2.tree
+      = unitEntries C04.genNames F p dieOff := rfl
+
+/--
+  debug_info_exprs_exact.  EXPRESSIONS WHERE THEY OCCUR.  For EVERY well-formed forest description `F` (C04's
+  `wfForestB`: any number of units of DWARF version 2–5, both formats, address size 4 | 8, either byte order, trees of
+  entries with attributes in every form), every selection `sel` of attributes by (name, final form, unit version) —
+  `Spec.C12.isExprAttr` is the standard's: DW_FORM_exprloc, and before DWARF 4 the block forms on the attributes of
+  class exprloc — such that every selected attribute of every entry carries, as the value the description prescribes
+  for it, the encoding IN THE CONFIGURATION OF ITS OWN UNIT of a well-formed operation sequence (`forestExprsOK`,
+  decidable; `E c b` names the sequence for the bytes `b`: any well-formed sequence, every opcode, nested blocks to
+  any depth), the model of
+
+      for cu in dwarfinfo.iter_CUs():
+          parser = parsers.setdefault(id(cu.structs), DWARFExprParser(cu.structs))
+          for die in cu.iter_DIEs():
+              for attr in die.attributes.values():
+                  if sel(attr.name, attr.form, cu['version']): parser.parse_expr(attr.value)
+
+  run on the Spec encoding of `.debug_info` / `.debug_abbrev` (+ the forest's other sections) exactly as the driver
+  runs it (C04's `forestDInfo`, the REGENERATED dispatch tables `Gen.opDispatch` and name table) yields, per unit and
+  per entry in iteration order, for exactly the selected attributes in order, the attribute's section offset and
+  exactly the encoded operations: opcode, name, operand values, byte offsets, nested expressions recursively
+  (`annotate` with THAT unit's byte order, format, address size and version).  From the bytes: unit headers,
+  abbreviation tables, entries, attribute values are C04's `debug_info_exact`; the operations are `expr_roundtrip`.
+  `pc` is the state of the per-structs parser cache BEFORE the walk — anything earlier walks of this or any other
+  file may have left (`PCacheOK`: each cached parser is the one built for its key; `[]` is, the walk keeps it):
+  the result does not depend on it, i.e. no unit is parsed with another configuration's parser.
+-/
+theorem debug_info_exprs_exact (F : Forest) (dasz : Nat) (hdasz : dasz = 4 ∨ dasz = 8)
+    (hwf : wfForestB C04.genNames F = true)
+    (G : Model.C04.UnitCtx → Nat → R DieObs) (hG : ∀ U o, U.cuDieOffset ≤ o → G U o = Model.C04.getCachedDIE U o)
+    (sel : Val → Val → Nat → Bool) (E : DwarfCfg → Bytes → List Op)
+    (hE : forestExprsOK sel E C04.genNames F = true)
+    (pc : PCache) (hpc : PCacheOK Gen.opDispatch pc) :
+    ∃ pc', sectionExprs G (C04.forestDInfo F dasz) (C04.genBundles F.le dasz).S0 (some (infoSec F)) false
+          Gen.opDispatch Gen.opOpcode2Name sel pc = .ok (expectInfoExprs sel E C04.genNames F, pc')
+      ∧ PCacheOK Gen.opDispatch pc' := by
+  have hW := Proofs.C04.wfForest_of_B _ F hwf
+  simp only [forestExprsOK, Bool.and_eq_true, List.all_eq_true] at hE
+  unfold sectionExprs
+  rw [(C04.debug_info_exact F dasz hdasz hwf G hG).1]
+  have hmem : ∀ p ∈ placeInfo F 0 F.units, p.2.cfg F.le ∈ Spec.allDwarfCfgs := fun p hp =>
+    Proofs.C04.wfUnit_cfg_mem (hW.infoHdr p.2 (Proofs.C04.mem_placeInfo F _ _ p hp))
+  obtain ⟨pc', h, hpc'⟩ := unitsExprs_ok (C04.forestDInfo F dasz) Gen.opDispatch Gen.opOpcode2Name sel E opTable
+    (fun p : Nat × UnitDesc => Proofs.Lookup.cuOf F.le p.1 (infoUnitOf F p.2))
+    (fun p => C04.flattenUnitP C04.genNames (p.2.cfg F.le) (C04.unitRho F p.2) (C04.unitRho F p.2) (infoDieOff F p.1 p.2) p.2.tree)
+    (fun p => p.2.cfg F.le) (placeInfo F 0 F.units)
+    (fun p _ => by
+      have h1 : (Proofs.Lookup.cuOf F.le p.1 (infoUnitOf F p.2)).header = Spec.Lookup.unitHdrVal F.le (infoUnitOf F p.2) := rfl
+      simp only [unitCfg, h1, Proofs.C04.unitHdrVal_asz, Proofs.C04.unitHdrVal_version, bind, Except.bind, pure, Except.pure]
+      rfl)
+    (fun p hp => gen_table_get _ (hmem p hp))
+    (fun p hp ops hops => expr_roundtrip _ _ (gen_table_mem _ (hmem p hp)) ops hops)
+    (fun p hp d hd => by
+      have := hE.1 p hp d.1
+      rw [← unitEntries_eq, ← C04.flattenUnitP_fst] at this
+      exact this (List.mem_map.2 ⟨d, hd, rfl⟩))
+    pc hpc
+  refine ⟨pc', ?_, hpc'⟩
+  simp only [h, bind, Except.bind, pure, Except.pure, expectInfoExprs]
+  congr 2
+  apply List.map_congr_left
+  intro p _
+  rw [← unitEntries_eq, ← C04.flattenUnitP_fst, List.map_map]
+  rfl
+
+/--
+  debug_types_exprs_exact.  The same for the type units of `.debug_types` (`iter_TUs()`).
+-/
+theorem debug_types_exprs_exact (F : Forest) (dasz : Nat) (hdasz : dasz = 4 ∨ dasz = 8)
+    (hwf : wfForestB C04.genNames F = true)
+    (G : Model.C04.UnitCtx → Nat → R DieObs) (hG : ∀ U o, U.cuDieOffset ≤ o → G U o = Model.C04.getCachedDIE U o)
+    (sel : Val → Val → Nat → Bool) (E : DwarfCfg → Bytes → List Op)
+    (hE : forestExprsOK sel E C04.genNames F = true)
+    (pc : PCache) (hpc : PCacheOK Gen.opDispatch pc) :
+    ∃ pc', sectionExprs G (C04.forestDInfo F dasz) (C04.genBundles F.le dasz).S0 (some (typesSec F)) true
+          Gen.opDispatch Gen.opOpcode2Name sel pc = .ok (expectTypesExprs sel E C04.genNames F, pc')
+      ∧ PCacheOK Gen.opDispatch pc' := by
+  have hW := Proofs.C04.wfForest_of_B _ F hwf
+  simp only [forestExprsOK, Bool.and_eq_true, List.all_eq_true] at hE
+  unfold sectionExprs
+  rw [(C04.debug_types_exact F dasz hdasz hwf G hG).1]
+  have hmem : ∀ p ∈ placeTypes F 0 F.tus, p.2.cfg F.le ∈ Spec.allDwarfCfgs := fun p hp =>
+    Proofs.C04.wfTU_cfg_mem (hW.typesHdr p.2 (Proofs.C04.mem_placeTypes F _ _ p hp))
+  obtain ⟨pc', h, hpc'⟩ := unitsExprs_ok (C04.forestDInfo F dasz) Gen.opDispatch Gen.opOpcode2Name sel E opTable
+    (fun p : Nat × UnitDesc => Proofs.C04.tuOf F.le p.1 (tuHeaderOf F p.2) (encTree (p.2.cfg F.le) p.2.tree))
+    (fun p => C04.flattenUnitP C04.genNames (p.2.cfg F.le) (C04.unitRho F p.2) (C04.unitRho F p.2) (typesDieOff F p.1 p.2) p.2.tree)
+    (fun p => p.2.cfg F.le) (placeTypes F 0 F.tus)
+    (fun p _ => by
+      have h1 : (Proofs.C04.tuOf F.le p.1 (tuHeaderOf F p.2) (encTree (p.2.cfg F.le) p.2.tree)).header
+          = tuHdrVal F.le (tuHeaderOf F p.2) (encTree (p.2.cfg F.le) p.2.tree) := rfl
+      simp only [unitCfg, h1, Proofs.C04.tuHdrVal_asz, Proofs.C04.tuHdrVal_version, bind, Except.bind, pure, Except.pure]
+      rfl)
+    (fun p hp => gen_table_get _ (hmem p hp))
+    (fun p hp ops hops => expr_roundtrip _ _ (gen_table_mem _ (hmem p hp)) ops hops)
+    (fun p hp d hd => by
+      have := hE.2 p hp d.1
+      rw [← unitEntries_eq, ← C04.flattenUnitP_fst] at this
+      exact this (List.mem_map.2 ⟨d, hd, rfl⟩))
+    pc hpc
+  refine ⟨pc', ?_, hpc'⟩
+  simp only [h, bind, Except.bind, pure, Except.pure, expectTypesExprs]
+  congr 2
+  apply List.map_congr_left
+  intro p _
+  rw [← unitEntries_eq, ← C04.flattenUnitP_fst, List.map_map]
+  rfl
+
+/--
+  parser_cache_independent.  THE CACHE KEY MAKES UNITS INDEPENDENT.  The per-structs parser cache is keyed by the
+  identity of the structs object, which `DWARFStructs.__new__` makes a function of (byte order, format, address
+  size, version) — the model's key `DwarfCfg`.  From every cache state that can arise (`PCacheOK`: the empty cache
+  is one, `getParser` preserves it — whatever sequence of units of whatever files came before), asking for the
+  parser of a unit of configuration `c` answers with the dispatch table the constructor builds for `c` — the
+  standard's operation table at THAT unit's address size, format and byte order — and never with another
+  configuration's; in particular two reachable cache states give the same parser, the one a fresh
+  `DWARFExprParser(cu.structs)` would be.
+-/
+theorem parser_cache_independent (c : DwarfCfg) (hc : c ∈ Spec.allDwarfCfgs) :
+    PCacheOK Gen.opDispatch []
+    ∧ (∀ pc, PCacheOK Gen.opDispatch pc →
+        ∃ pc', getParser Gen.opDispatch pc c = .ok (opTable c, pc') ∧ PCacheOK Gen.opDispatch pc')
+    ∧ (∀ pc₁ pc₂, PCacheOK Gen.opDispatch pc₁ → PCacheOK Gen.opDispatch pc₂ →
+        (getParser Gen.opDispatch pc₁ c).map (·.1) = (getParser Gen.opDispatch pc₂ c).map (·.1)) := by
+  refine ⟨pcacheOK_nil _, fun pc hpc => getParser_ok _ pc hpc c _ (gen_table_get c hc), fun pc₁ pc₂ h₁ h₂ => ?_⟩
+  obtain ⟨_, e₁, _⟩ := getParser_ok _ pc₁ h₁ c _ (gen_table_get c hc)
+  obtain ⟨_, e₂, _⟩ := getParser_ok _ pc₂ h₂ c _ (gen_table_get c hc)
+  rw [e₁, e₂]; rfl
+
+/-- what the key must distinguish: the dispatch tables of two configurations agree exactly when byte order and address
+    size agree and the reference operand of DW_OP_call_ref / DW_OP_(GNU_)implicit_pointer has the same width
+    (`refSize`: the format from DWARF 3 on, the address size in DWARF 2 — so the VERSION is part of what the key must
+    carry, and so is the format) — a cache keyed by less WOULD hand a unit a parser that mis-sizes DW_OP_addr /
+    DW_OP_call_ref / fixed-width constants of another unit -/
+theorem dispatch_key_exact :
+    ∀ a ∈ Spec.allDwarfCfgs, ∀ b ∈ Spec.allDwarfCfgs,
+      (opTable a = opTable b ↔ (a.le = b.le ∧ a.asz = b.asz ∧ refSize a = refSize b)) := by decide +kernel
+
+/-- … in particular two units that differ ONLY in their version can need different parsers -/
+example : opTable ⟨true, 32, 8, 2⟩ ≠ opTable ⟨true, 32, 8, 3⟩ := by decide +kernel
+
+/-- the prescribed value of an attribute in DW_FORM_exprloc or a block form is its payload, whatever the sections
+    (`resolve` leaves a block untouched), and `bytes()` of it is the payload: the hypothesis `forestExprsOK` is
+    about the encoded payload bytes of the description's operands (`Operand.blockU` / `Operand.block`) -/
+theorem block_value_bytes (c : DwarfCfg) (secs : Sections) (b : Bases) (f : String)
+    (hf : f ∈ "DW_FORM_exprloc" :: blockFormNames) (payload : Bytes) :
+    resolveD c secs b (.str f) (byteList payload) = byteList payload
+    ∧ bytesOf (byteList payload) = some payload
+    ∧ exprBytes (byteList payload) = .ok payload := by
+  refine ⟨?_, bytesOf_byteList payload, exprBytes_of_bytesOf _ _ (bytesOf_byteList payload)⟩
+  simp only [blockFormNames, List.mem_cons, List.not_mem_nil, or_false] at hf
+  rcases hf with rfl | rfl | rfl | rfl | rfl <;> rfl
+
+/-! non-vacuity of the composed theorems: three units of DIFFERENT configurations sharing one abbreviation table —
+    a DWARF 5 unit (64-bit format, 8-byte addresses) whose DW_AT_location is a DW_FORM_exprloc holding DW_OP_addr (8
+    bytes), DW_OP_call_ref (8 bytes), a depth-2 nest of entry values and DW_OP_stack_value, next to a DW_AT_const_value
+    block that is NOT an expression; a DWARF 2 unit (32-bit format, 4-byte addresses) whose DW_AT_location (block1)
+    and DW_AT_frame_base (block2) hold DW_OP_addr (4 bytes), DW_OP_call_ref (4 bytes), DW_OP_fbreg, an implicit value
+    and a GNU implicit pointer; a DWARF 4 unit whose block attributes hold bytes that are no expression and are not
+    selected (DWARF 4 expressions are exprloc) -/
+
+def exC1 : DwarfCfg := ⟨true, 64, 8, 5⟩
+def exC2 : DwarfCfg := ⟨true, 32, 4, 2⟩
+def exOps1 : List Op :=
+  [.plain 0x03 [.u 0x1122334455667788], .plain 0x9a [.u 0x0102030405060708],
+   .entry 0xa3 1 [.plain 0x50 [], .entry 0xf3 2 [.plain 0x91 [.sleb 1 (-5)]]], .plain 0x9f []]
+def exOps2 : List Op := [.plain 0x03 [.u 0x11223344], .plain 0x9a [.u 0xdeadbeef], .plain 0x91 [.sleb 2 (-5)]]
+def exOps3 : List Op := [.plain 0x9e [.block 1 [7, 8, 9]], .plain 0xf2 [.u 0x10, .sleb 1 (-1)]]
+
+def exDa : AbbrevDecl := { code := 1, tag := 0x11, children := true, specs := [] }
+def exDb : AbbrevDecl :=
+  { code := 2, tag := 0x34, children := false, specs := [{ name := 0x02, form := 0x18 }, { name := 0x1c, form := 0x0a }] }
+def exDc : AbbrevDecl :=
+  { code := 3, tag := 0x34, children := false, specs := [{ name := 0x02, form := 0x0a }, { name := 0x40, form := 0x03 },
+                                                        { name := 0x1c, form := 0x0a }] }
+
+def exExprForest : Forest :=
+  { le := true,
+    tables := [{ decls := [exDa, exDb, exDc] }],
+    units := [{ fmt64 := true, version := 5, asz := 8, table := 0,
+                tree := .mk { decl := exDa, attrs := [] }
+                  [.mk { decl := exDb, attrs := [{ form := 0x18, op := .blockU 1 (encodeOps exC1 exOps1) },
+                                                 { form := 0x0a, op := .block [1, 2, 3] }] } [] 1] 1 },
+              { fmt64 := false, version := 2, asz := 4, table := 0,
+                tree := .mk { decl := exDa, attrs := [] }
+                  [.mk { decl := exDc, attrs := [{ form := 0x0a, op := .block (encodeOps exC2 exOps2) },
+                                                 { form := 0x03, op := .block (encodeOps exC2 exOps3) },
+                                                 { form := 0x0a, op := .block [0xff, 0xff] }] } [] 1] 1 },
+              { fmt64 := false, version := 4, asz := 8, table := 0,
+                tree := .mk { decl := exDa, attrs := [] }
+                  [.mk { decl := exDc, attrs := [{ form := 0x0a, op := .block [0xff] },
+                                                 { form := 0x03, op := .block [] },
+                                                 { form := 0x0a, op := .block [0xfe] }] } [] 1] 1 }],
+    tus := [{ fmt64 := false, version := 4, asz := 4, id8 := 9, typeOff := 23, table := 0,
+              tree := .mk { decl := exDa, attrs := [] }
+                [.mk { decl := exDb, attrs := [{ form := 0x18, op := .blockU 2 (encodeOps ⟨true, 32, 4, 4⟩ exOps2) },
+                                               { form := 0x0a, op := .block [] }] } [] 1] 1 }] }
+
+/-- the abstract syntax of the expression bytes that occur, per configuration -/
+def exE : DwarfCfg → Bytes → List Op := tableE [(exC1, exOps1), (exC2, exOps2), (exC2, exOps3), (⟨true, 32, 4, 4⟩, exOps2)]
+
+set_option maxRecDepth 100000 in
+theorem exExprForest_wf : wfForestB C04.genNames exExprForest = true := by decide +kernel
+set_option maxRecDepth 100000 in
+/-- the hypothesis of `debug_info_exprs_exact` with the STANDARD selection `isExprAttr` -/
+theorem exExprForest_ok : forestExprsOK isExprAttr exE C04.genNames exExprForest = true := by decide +kernel
+
+set_option maxRecDepth 100000 in
+/-- per unit, per entry: (attribute offset, number of top-level operations) of the selected attributes -/
+example : (expectInfoExprs isExprAttr exE C04.genNames exExprForest).map (·.map (·.map fun x => (x.1, x.2.length)))
+    = [[[], [(26, 4)], []], [[], [(72, 3), (86, 2)], []], [[], [], []]] := by decide +kernel
+
+/-- `debug_info_exprs_exact` / `debug_types_exprs_exact` apply, from the empty cache and from a cache an earlier walk left -/
+example := debug_info_exprs_exact exExprForest 8 (Or.inr rfl) exExprForest_wf Model.C04.fetch C04.fetch_agrees
+  isExprAttr exE exExprForest_ok [] (pcacheOK_nil _)
+example := debug_types_exprs_exact exExprForest 4 (Or.inl rfl) exExprForest_wf Model.C04.getCachedDIE (fun _ _ _ => rfl)
+  isExprAttr exE exExprForest_ok [] (pcacheOK_nil _)
+/-- chained: the cache the `.debug_info` walk leaves is a legitimate start for the `.debug_types` walk -/
+example (pc : PCache) (hpc : PCacheOK Gen.opDispatch pc) :
+    ∃ pc' pc'', sectionExprs Model.C04.fetch (C04.forestDInfo exExprForest 8) (C04.genBundles true 8).S0
+          (some (infoSec exExprForest)) false Gen.opDispatch Gen.opOpcode2Name isExprAttr pc
+            = .ok (expectInfoExprs isExprAttr exE C04.genNames exExprForest, pc')
+      ∧ sectionExprs Model.C04.fetch (C04.forestDInfo exExprForest 8) (C04.genBundles true 8).S0
+          (some (typesSec exExprForest)) true Gen.opDispatch Gen.opOpcode2Name isExprAttr pc'
+            = .ok (expectTypesExprs isExprAttr exE C04.genNames exExprForest, pc'') := by
+  obtain ⟨pc', h, h'⟩ := debug_info_exprs_exact exExprForest 8 (Or.inr rfl) exExprForest_wf Model.C04.fetch C04.fetch_agrees
+    isExprAttr exE exExprForest_ok pc hpc
+  obtain ⟨pc'', h2, _⟩ := debug_types_exprs_exact exExprForest 8 (Or.inr rfl) exExprForest_wf Model.C04.fetch
+    C04.fetch_agrees isExprAttr exE exExprForest_ok pc' h'
+  exact ⟨pc', pc'', h, h2⟩
+example : exC1 ∈ Spec.allDwarfCfgs ∧ exC2 ∈ Spec.allDwarfCfgs := by simp [exC1, exC2, Spec.allDwarfCfgs]
+example : opTable exC1 ≠ opTable exC2 := by decide +kernel
+
+end Info
+
+/-! ### operand decoding at the extremes (seventh wave): every case is inside `expr_roundtrip`'s domain -/
+
+/-- widths of the unit-dependent operands in the REGENERATED dispatch tables, for all 32 configurations -/
+theorem unit_dependent_widths :
+    ∀ e ∈ Gen.opDispatch,
+      e.2.lookup 0x03 = some [.u e.1.asz e.1.le]
+      ∧ e.2.lookup 0x9a = some [.u (refSize e.1) e.1.le]
+      ∧ e.2.lookup 0xa0 = some [.u (refSize e.1) e.1.le, .sleb]
+      ∧ e.2.lookup 0xf2 = some [.u (refSize e.1) e.1.le, .sleb]
+      ∧ e.2.lookup 0xa1 = some [.uleb] ∧ e.2.lookup 0xa2 = some [.uleb] := by decide +kernel
+
+theorem sig_addr (c : DwarfCfg) : opSig c 0x03 = some [.u c.asz c.le] := rfl
+theorem sig_call_ref (c : DwarfCfg) : opSig c 0x9a = some [.u (refSize c) c.le] := rfl
+theorem sig_implicit_pointer (c : DwarfCfg) (op : Nat) (h : op = 0xa0 ∨ op = 0xf2) :
+    opSig c op = some [.u (refSize c) c.le, .sleb] := by rcases h with rfl | rfl <;> rfl
+theorem sig_implicit_value (c : DwarfCfg) : opSig c 0x9e = some [.block] := rfl
+theorem sig_const_type (c : DwarfCfg) (op : Nat) (h : op = 0xa4 ∨ op = 0xf4) : opSig c op = some [.uleb, .block1] := by
+  rcases h with rfl | rfl <;> rfl
+theorem sig_entry_value (c : DwarfCfg) (op : Nat) (h : op = 0xa3 ∨ op = 0xf3) : opSig c op = some [.expr] := by
+  rcases h with rfl | rfl <;> rfl
+theorem sig_constu (c : DwarfCfg) : opSig c 0x10 = some [.uleb] := rfl
+theorem sig_consts (c : DwarfCfg) : opSig c 0x11 = some [.sleb] := rfl
+
+/-- DW_OP_addr: the operand is `address_size` bytes of the unit (4 or 8), any value of that width -/
+theorem addr_roundtrip (c : DwarfCfg) (D : List (Nat × List ArgKind)) (hD : (c, D) ∈ Gen.opDispatch)
+    (v : Nat) (hv : v < 256 ^ c.asz) :
+    (encodeOps c [.plain 0x03 [.u v]]).length = 1 + c.asz
+    ∧ parseExpr D Gen.opOpcode2Name (encodeOps c [.plain 0x03 [.u v]]) = .ok [obsRecord 0x03 [.int v] 0] := by
+  refine ⟨?_, ?_⟩
+  · simp [encodeOps, encodeOp, sig_addr, encArgs, encArg, encNat_length]; omega
+  · rw [expr_roundtrip c D hD _ (by simp [WFops, WFop, sig_addr, argsFit, argFit, hv])]
+    simp [annotate, obsOp, obsArg]
+
+/-- DW_OP_call_ref: the operand is `refSize` bytes — 4 in the 32-bit and 8 in the 64-bit DWARF format from DWARF 3 on
+    (§2.5.1.5), the size of an address in a DWARF 2 unit (the DW_FORM_ref_addr convention every producer and
+    consumer follows for this operand) -/
+theorem call_ref_roundtrip (c : DwarfCfg) (D : List (Nat × List ArgKind)) (hD : (c, D) ∈ Gen.opDispatch)
+    (v : Nat) (hv : v < 256 ^ refSize c) :
+    (encodeOps c [.plain 0x9a [.u v]]).length = 1 + refSize c
+    ∧ parseExpr D Gen.opOpcode2Name (encodeOps c [.plain 0x9a [.u v]]) = .ok [obsRecord 0x9a [.int v] 0] := by
+  refine ⟨?_, ?_⟩
+  · simp [encodeOps, encodeOp, sig_call_ref, encArgs, encArg, encNat_length]; omega
+  · rw [expr_roundtrip c D hD _ (by simp [WFops, WFop, sig_call_ref, argsFit, argFit, hv])]
+    simp [annotate, obsOp, obsArg]
+
+/-- DW_OP_implicit_pointer / DW_OP_GNU_implicit_pointer: a reference of `refSize` bytes (format-sized from DWARF 3 on,
+    ADDRESS-sized in a DWARF 2 unit — what `gcc -gdwarf-2` emits), then an SLEB128 of any encoded length `n` (10 bytes
+    and more included) -/
+theorem implicit_pointer_roundtrip (c : DwarfCfg) (D : List (Nat × List ArgKind)) (hD : (c, D) ∈ Gen.opDispatch)
+    (op : Nat) (hop : op = 0xa0 ∨ op = 0xf2) (v : Nat) (hv : v < 256 ^ refSize c) (n : Nat) (s : Int) (hn : 1 ≤ n)
+    (hlo : -((2 ^ (7 * n - 1) : Nat) : Int) ≤ s) (hhi : s < ((2 ^ (7 * n - 1) : Nat) : Int)) :
+    (encodeOps c [.plain op [.u v, .sleb n s]]).length = 1 + refSize c + n
+    ∧ parseExpr D Gen.opOpcode2Name (encodeOps c [.plain op [.u v, .sleb n s]])
+        = .ok [obsRecord op [.int v, .int s] 0] := by
+  have hs := sig_implicit_pointer c op hop
+  refine ⟨?_, ?_⟩
+  · simp [encodeOps, encodeOp, hs, encArgs, encArg, encNat_length, encSlebN_length]; omega
+  · rw [expr_roundtrip c D hD _ (by simp [WFops, WFop, hs, argsFit, argFit, hv, hn]; exact ⟨by exact_mod_cast hlo, by exact_mod_cast hhi⟩)]
+    simp [annotate, obsOp, obsArg]
+
+/-- DW_OP_implicit_value: a block of ANY length — 0, 255, 256, thousands — behind a ULEB128 length of any encoded
+    width `n` that can hold it -/
+theorem implicit_value_roundtrip (c : DwarfCfg) (D : List (Nat × List ArgKind)) (hD : (c, D) ∈ Gen.opDispatch)
+    (n : Nat) (b : Bytes) (hn : 1 ≤ n) (hb : b.length < 2 ^ (7 * n)) :
+    (encodeOps c [.plain 0x9e [.block n b]]).length = 1 + n + b.length
+    ∧ parseExpr D Gen.opOpcode2Name (encodeOps c [.plain 0x9e [.block n b]]) = .ok [obsRecord 0x9e [obsBytes b] 0] := by
+  refine ⟨?_, ?_⟩
+  · simp [encodeOps, encodeOp, sig_implicit_value, encArgs, encArg, encUlebN_length]; omega
+  · rw [expr_roundtrip c D hD _ (by simp [WFops, WFop, sig_implicit_value, argsFit, argFit, hn, hb])]
+    simp [annotate, obsOp, obsArg]
+
+/-- DW_OP_const_type / DW_OP_GNU_const_type: a ULEB128 type reference of any encoded length, then a value block of
+    EVERY length a one-byte count can express, 0..255 -/
+theorem const_type_roundtrip (c : DwarfCfg) (D : List (Nat × List ArgKind)) (hD : (c, D) ∈ Gen.opDispatch)
+    (op : Nat) (hop : op = 0xa4 ∨ op = 0xf4) (n t : Nat) (hn : 1 ≤ n) (ht : t < 2 ^ (7 * n)) (b : Bytes) (hb : b.length ≤ 255) :
+    (encodeOps c [.plain op [.uleb n t, .block1 b]]).length = 1 + n + 1 + b.length
+    ∧ parseExpr D Gen.opOpcode2Name (encodeOps c [.plain op [.uleb n t, .block1 b]])
+        = .ok [obsRecord op [.int t, obsBytes b] 0] := by
+  have hs := sig_const_type c op hop
+  refine ⟨?_, ?_⟩
+  · simp [encodeOps, encodeOp, hs, encArgs, encArg, encUlebN_length]; omega
+  · rw [expr_roundtrip c D hD _ (by simp [WFops, WFop, hs, argsFit, argFit, hn, ht]; omega)]
+    simp [annotate, obsOp, obsArg]
+
+/-- DW_OP_entry_value / DW_OP_GNU_entry_value: a nested expression of ANY encoded length (0 included), the nested
+    operations numbered from 0 -/
+theorem entry_value_roundtrip (c : DwarfCfg) (D : List (Nat × List ArgKind)) (hD : (c, D) ∈ Gen.opDispatch)
+    (op : Nat) (hop : op = 0xa3 ∨ op = 0xf3) (n : Nat) (body : List Op) (hn : 1 ≤ n)
+    (hlen : (encodeOps c body).length < 2 ^ (7 * n)) (hbody : WFops c body = true) :
+    (encodeOps c [.entry op n body]).length = 1 + n + (encodeOps c body).length
+    ∧ parseExpr D Gen.opOpcode2Name (encodeOps c [.entry op n body])
+        = .ok [obsRecord op [.list (annotate c 0 body)] 0] := by
+  have hs := sig_entry_value c op hop
+  refine ⟨?_, ?_⟩
+  · simp [encodeOps, encodeOp, encUlebN_length]; omega
+  · rw [expr_roundtrip c D hD _ (by simp [WFops, WFop, hs, hn, hlen, hbody])]
+    simp [annotate, obsOp]
+
+/-- LEB128 operands of EVERY encoded length: DW_OP_constu / DW_OP_consts with `n` bytes (minimal or padded; `n = 10`
+    carries every 64-bit value and more, Python ints are unbounded) -/
+theorem leb_operand_roundtrip (c : DwarfCfg) (D : List (Nat × List ArgKind)) (hD : (c, D) ∈ Gen.opDispatch) (n : Nat)
+    (hn : 1 ≤ n) :
+    (∀ v : Nat, v < 2 ^ (7 * n) →
+      parseExpr D Gen.opOpcode2Name (encodeOps c [.plain 0x10 [.uleb n v]]) = .ok [obsRecord 0x10 [.int v] 0])
+    ∧ (∀ s : Int, -((2 ^ (7 * n - 1) : Nat) : Int) ≤ s → s < ((2 ^ (7 * n - 1) : Nat) : Int) →
+      parseExpr D Gen.opOpcode2Name (encodeOps c [.plain 0x11 [.sleb n s]]) = .ok [obsRecord 0x11 [.int s] 0]) := by
+  refine ⟨fun v hv => ?_, fun s hlo hhi => ?_⟩
+  · rw [expr_roundtrip c D hD _ (by simp [WFops, WFop, sig_constu, argsFit, argFit, hn, hv])]
+    simp [annotate, obsOp, obsArg]
+  · rw [expr_roundtrip c D hD _ (by simp [WFops, WFop, sig_consts, argsFit, argFit, hn]; exact ⟨by exact_mod_cast hlo, by exact_mod_cast hhi⟩)]
+    simp [annotate, obsOp, obsArg]
+
+/-! the extremes are inside the domain: blocks of length 0 / 255 / 256 / 300, a 255-byte typed constant, an empty and
+    a 200-byte nested expression, 10- and 11-byte LEB128s at the 64-bit boundaries, 4- and 8-byte addresses and offsets -/
+example : WFops ⟨true, 32, 4, 2⟩
+    [.plain 0x9e [.block 1 []], .plain 0x9e [.block 2 (List.replicate 255 0xab)], .plain 0x9e [.block 2 (List.replicate 256 1)],
+     .plain 0x9e [.block 3 (List.replicate 300 0xff)], .plain 0xa4 [.uleb 1 0, .block1 []],
+     .plain 0xf4 [.uleb 5 0xffffffff, .block1 (List.replicate 255 0x80)],
+     .entry 0xa3 1 [], .entry 0xf3 2 (List.replicate 200 (.plain 0x96 [])),
+     .plain 0x10 [.uleb 10 (2 ^ 64 - 1)], .plain 0x10 [.uleb 10 (2 ^ 70 - 1)], .plain 0x10 [.uleb 11 (2 ^ 64)],
+     .plain 0x11 [.sleb 10 (-(2 ^ 63))], .plain 0x11 [.sleb 10 (2 ^ 63 - 1)], .plain 0x11 [.sleb 11 (-(2 ^ 69) - 1)],
+     .plain 0xa1 [.uleb 10 (2 ^ 64 - 1)],
+     .plain 0x03 [.u 0xffffffff], .plain 0x9a [.u 0xffffffff], .plain 0xa0 [.u 0xffffffff, .sleb 10 (-(2 ^ 63))]] = true := by
+  decide +kernel
+example : WFops ⟨false, 64, 8, 5⟩
+    [.plain 0x03 [.u 0xffffffffffffffff], .plain 0x9a [.u 0xffffffffffffffff], .plain 0xf2 [.u 0x100000000, .sleb 1 (-1)]] = true := by
+  decide +kernel
+/-- … and what is NOT encodable is outside it: a 256-byte typed constant (one-byte count), a 4-byte address in an
+    8-byte slot is fine but a 5-byte value in a 4-byte slot is not -/
+example : WFops ⟨true, 32, 4, 5⟩ [.plain 0xa4 [.uleb 1 0, .block1 (List.replicate 256 0)]] = false := by decide +kernel
+example : WFops ⟨true, 32, 4, 5⟩ [.plain 0x03 [.u 0x100000000]] = false := by decide +kernel
+example : (encodeOps ⟨true, 32, 4, 3⟩ [.plain 0x9a [.u 1]]).length = 5 ∧ (encodeOps ⟨true, 64, 4, 3⟩ [.plain 0x9a [.u 1]]).length = 9
+    ∧ (encodeOps ⟨true, 32, 8, 5⟩ [.plain 0x03 [.u 1]]).length = 9 := by decide +kernel
+/-- the DWARF 2 convention: in a DWARF 2 unit with 8-byte addresses and the 32-bit format the reference of
+    DW_OP_GNU_implicit_pointer takes 8 bytes (the bytes `gcc -O2 -gdwarf-2` emits on x86-64: f2 a3 00 00 00 00 00 00 00 00),
+    in a DWARF 3+ unit 4 -/
+example : encodeOps ⟨true, 32, 8, 2⟩ [.plain 0xf2 [.u 0xa3, .sleb 1 0]] = [0xf2, 0xa3, 0, 0, 0, 0, 0, 0, 0, 0]
+    ∧ encodeOps ⟨true, 32, 8, 3⟩ [.plain 0xf2 [.u 0xa3, .sleb 1 0]] = [0xf2, 0xa3, 0, 0, 0, 0]
+    ∧ refSize ⟨true, 64, 4, 2⟩ = 4 ∧ refSize ⟨true, 64, 4, 4⟩ = 8 := by decide +kernel
+
+/-! ### truncated expressions (seventh wave) -/
+
+/--
+  truncated_expr.  EXACT behaviour on every truncation of a well-formed expression.  `ops = done ++ o :: rest` well
+  formed, the encoded bytes cut `j` bytes into the operation `o` (`j < |o|`; by `truncation_exhaustive` every proper
+  prefix of the bytes is such a cut, for exactly one split):
+   * `j = 0` — the cut falls between two operations: parsing returns exactly the operations before it, `done`,
+     annotated as in the uncut expression;
+   * `j ≥ 1` — the opcode byte of `o` is there but its operands are not complete (the cut is inside a fixed-width
+     constant, inside a LEB128, inside the count or the bytes of a block, inside the length or the body of a nested
+     expression at any depth, between two operands): `parse_expr` raises ELFParseError (`struct_parse` / `read_blob`
+     reach the end of the stream) — never another exception class, never a shortened or altered operation, and the
+     complete operations in front of the cut are not returned.
+-/
+theorem truncated_expr (c : DwarfCfg) (D : List (Nat × List ArgKind)) (hD : (c, D) ∈ Gen.opDispatch)
+    (done : List Op) (o : Op) (rest : List Op) (hwf : WFops c (done ++ o :: rest) = true) (j : Nat)
+    (hj : j < (encodeOp c o).length) :
+    parseExpr D Gen.opOpcode2Name ((encodeOps c (done ++ o :: rest)).take ((encodeOps c done).length + j))
+      = if j = 0 then .ok (annotate c 0 done) else .error .elfParseError := by
+  by_cases h0 : j = 0
+  · subst h0
+    rw [if_pos rfl, Nat.add_zero]
+    exact C12T.parseExpr_cut_boundary (gen_tables_ok c D hD) done (o :: rest) hwf
+  · rw [if_neg h0]
+    exact C12T.parseExpr_cut_inside (gen_tables_ok c D hD) done o rest hwf j (by omega) hj
+
+/-- every proper prefix of an encoded sequence is a cut of `truncated_expr` -/
+theorem truncation_exhaustive (c : DwarfCfg) (ops : List Op) (k : Nat) (hk : k < (encodeOps c ops).length) :
+    ∃ done o rest j, ops = done ++ o :: rest ∧ k = (encodeOps c done).length + j ∧ j < (encodeOp c o).length :=
+  C12T.cut_cases c ops k hk
+
+/-- the two together: EVERY proper prefix (cut at any byte `k`) parses to a prefix of the operations or raises
+    ELFParseError -/
+theorem truncated_expr_every_byte (c : DwarfCfg) (D : List (Nat × List ArgKind)) (hD : (c, D) ∈ Gen.opDispatch)
+    (ops : List Op) (hwf : WFops c ops = true) (k : Nat) (hk : k < (encodeOps c ops).length) :
+    (∃ done rest, ops = done ++ rest ∧ k = (encodeOps c done).length
+        ∧ parseExpr D Gen.opOpcode2Name ((encodeOps c ops).take k) = .ok (annotate c 0 done))
+    ∨ parseExpr D Gen.opOpcode2Name ((encodeOps c ops).take k) = .error .elfParseError := by
+  obtain ⟨done, o, rest, j, rfl, rfl, hj⟩ := truncation_exhaustive c ops k hk
+  have h := truncated_expr c D hD done o rest hwf j hj
+  by_cases h0 : j = 0
+  · subst h0
+    rw [if_pos rfl] at h
+    exact Or.inl ⟨done, o :: rest, rfl, rfl, h⟩
+  · rw [if_neg h0] at h
+    exact Or.inr h
+
+/-- non-vacuity: `sample` (44 bytes) cut at byte 23 — inside the typed constant, behind the depth-3 nest — and at
+    byte 9, between DW_OP_addr and the nest -/
+example (D : List (Nat × List ArgKind)) (hD : ((⟨false, 64, 8, 5⟩ : DwarfCfg), D) ∈ Gen.opDispatch) :
+    parseExpr D Gen.opOpcode2Name ((encodeOps ⟨false, 64, 8, 5⟩ sample).take 23) = .error .elfParseError := by
+  have h := truncated_expr ⟨false, 64, 8, 5⟩ D hD (sample.take 2) (.plain 0xa4 [.uleb 1 9, .block1 [0xaa, 0xbb]]) (sample.drop 3)
+    (by decide +kernel) 2 (by decide +kernel)
+  have e : (encodeOps ⟨false, 64, 8, 5⟩ (sample.take 2)).length + 2 = 23 := by decide +kernel
+  rw [e] at h
+  exact h
+example (D : List (Nat × List ArgKind)) (hD : ((⟨false, 64, 8, 5⟩ : DwarfCfg), D) ∈ Gen.opDispatch) :
+    parseExpr D Gen.opOpcode2Name ((encodeOps ⟨false, 64, 8, 5⟩ sample).take 9)
+      = .ok (annotate ⟨false, 64, 8, 5⟩ 0 (sample.take 1)) := by
+  have h := truncated_expr ⟨false, 64, 8, 5⟩ D hD (sample.take 1) (sample[1]) (sample.drop 2) (by decide +kernel) 0
+    (by decide +kernel)
+  have e : (encodeOps ⟨false, 64, 8, 5⟩ (sample.take 1)).length + 0 = 9 := by decide +kernel
+  rw [e] at h
+  exact h
 
 end PyElf.Props.C12
